@@ -109,6 +109,18 @@ def templates(tier="quick"):
     T += _mk("rspfile_empty", [v2, v], tags=["rspfile"], depth=d)
     T += _mk("rspfile_becomes_empty", [v, v2], tags=["rspfile"], depth=d)
 
+    # T13d the content is written as $in_newline / $in and the inputs have names the shell would split or expand: the
+    # file holds one quoted word per input (the quoting of $in, newline separated)
+    def shq(n):
+        import re
+        return n if re.fullmatch(r"[A-Za-z0-9_+\-./]+", n) else "'" + n.replace("'", "'\\''") + "'"
+    names = ["a b.o", "c'd.o", "e$$f.o".replace("$$", "$"), "plain.o"]
+    for var, sep in (("$in_newline", "\n"), ("$in", " ")):
+        lib = Stmt("lib", ex=names, rsp=("lib.rsp", sep.join(shq(n) for n in names)))
+        lib.rsp_manifest = var
+        T += _mk("rspfile_" + var[1:], [Variant("v0", [lib, Stmt("exe", ex=["lib"])])], tags=["rspfile", "names"], depth=2, js=(1, 2),
+                 max_fault_stmts=1, edits_during=False)
+
     # T13c the command with the response file succeeds, but the build is stopped by an error found while finishing it:
     # the dyndep file it produced does not parse
     vb = Variant("v0", [Stmt("dd", ex=["dd.in"], copy=True, rsp=("dd.rsp", "dd.in")), Stmt("out", ex=["in"], oo=["dd"], dyndep="dd"),
